@@ -697,7 +697,16 @@ class CallMixin:
         if isinstance(v, VDictView) and v.which == "values" and v.d.order is not None:
             q = z3.Int(uid("q"))
             at = sel(v.d.vals, *key_terms(sel(v.d.order.elems, q)))  # values in insertion order of their keys
-            return VList(v.d.order.length, tmap(lambda leaf: z3.Lambda([q], leaf), at), v.d.vshape)
+            if self.binders:
+                return VList(v.d.order.length, tmap(lambda leaf: z3.Lambda([q], leaf), at), v.d.vshape)
+            # a new list constrained element by element (keeps later element terms small: out[q] instead of the nested
+            # key-indexed select it stands for)
+            from .values import leaves
+            out = fresh(("list", v.d.vshape), uid("values"))
+            st.assume(to_z3(out.length) == to_z3(v.d.order.length))
+            st.assume(z3.ForAll([q], z3.Implies(z3.And(q >= 0, q < to_z3(v.d.order.length)),
+                                                z3.And(*[a_ == b_ for a_, b_ in zip(leaves(sel(out.elems, q)), leaves(at))]))))
+            return out
         if isinstance(v, VFilter) and isinstance(v.base, VList) and v.base.elems is not None:
             preds = v.preds
             return self.materialize_filter(v.base, lambda x: AND(*[self.truth(self.apply(f, [x], st, node)) for f in preds]),
